@@ -178,3 +178,13 @@ Theorem C12_dial_list_own_scid : forall sup scid ps,
   forall p, In p (dial_list sup scid ps) -> fst p = tpInitialSourceConnectionID -> snd p = scid.
 Proof. exact dial_list_own_scid. Qed.
 Print Assumptions C12_dial_list_own_scid.
+
+(** Connection ID rotation at the advertised limit (covered by C12_no_error_iff, whose histories
+    include [EvCIDRotate]: the count is taken after the retirement Retire Prior To demands):
+    fill the limit, rotate the ID in use, before and after the client's own rotation, retire
+    several at once -- every built-in parrot plays it to the end. *)
+Example C12_cid_rotation_at_limit_ok :
+  Forall (fun kv => let a := advertised kv in play a (enforced_spec a default_config) (cid_rotation_history a) = Fine)
+         advenf_all_specs.
+Proof. exact cid_rotation_fine. Qed.
+Print Assumptions C12_cid_rotation_at_limit_ok.
